@@ -120,7 +120,18 @@ def ihash(obj):
 _W = {}
 
 
+def fix_environment():
+    """Environment parameters every run shares, whatever the invoking shell had: the usual soft limit of 1024 open
+    files (inherited by every tool and rtsim process)."""
+    import resource
+    soft, hard = resource.getrlimit(resource.RLIMIT_NOFILE)
+    want = 1024 if hard == resource.RLIM_INFINITY else min(1024, hard)
+    if soft != want:
+        resource.setrlimit(resource.RLIMIT_NOFILE, (want, hard))
+
+
 def _winit(modname, tier, seed, root):
+    fix_environment()
     signal.signal(signal.SIGINT, signal.SIG_IGN)
     _W["mod"] = importlib.import_module(modname)
     _W["tier"] = tier
@@ -280,6 +291,7 @@ def write_replay(pid, seed, n, case, r, tier):
 
 def replay_file(path):
     """Re-execute a replay file in this (fresh) process. Exit code semantics as checks."""
+    fix_environment()
     rp = json.load(open(path))
     mod = importlib.import_module("sim.checks." + rp["property"].lower())
     bld = buildmod.ensure()
@@ -300,6 +312,7 @@ def replay_file(path):
 
 def run_check(pid, tier, seed, nworkers=None, max_violations=4):
     t0 = time.time()
+    fix_environment()
     modname = "sim.checks." + pid.lower()
     mod = importlib.import_module(modname)
     bld = buildmod.ensure()
